@@ -358,21 +358,24 @@ func (c *Client) Send(packet stanza.Packet) error {
 	case stanza.SMRequest, *stanza.SMRequest, stanza.SMAnswer, *stanza.SMAnswer:
 		return c.sendWithWriter(c.transport, data)
 	}
-	return c.sendStanza(data)
+	return c.sendStanza(data, string(data))
 }
 
 // sendStanza writes a stanza to the server. With stream management it is first stored as
 // non-acked (see https://xmpp.org/extensions/xep-0198.html#scenarios). Storing and writing are
 // a single critical section, so that the order of the queue is the order on the wire, whatever
 // the number of goroutines sending.
-func (c *Client) sendStanza(data []byte) error {
+// held lists the stanzas that data consists of: one for Send, any number for a raw string.
+func (c *Client) sendStanza(data []byte, held ...string) error {
 	// (only on the stream-managed session itself: on a session bound without stream management -
 	// a reconnection to a server that does not offer it - nothing is added to what is still held)
 	if c.config.StreamManagementEnable && c.Session != nil && c.Session.smActive && c.Session.SMState.UnAckQueue != nil {
 		uaq := c.Session.SMState.UnAckQueue
 		uaq.RWMutex.Lock()
 		defer uaq.RWMutex.Unlock()
-		uaq.Push(&stanza.UnAckedStz{Stz: string(data)})
+		for _, stz := range held {
+			uaq.Push(&stanza.UnAckedStz{Stz: stz})
+		}
 	}
 	return c.sendWithWriter(c.transport, data)
 }
@@ -414,7 +417,41 @@ func (c *Client) SendRaw(packet string) error {
 	if isStreamManagementElement(packet) {
 		return c.sendWithWriter(c.transport, []byte(packet))
 	}
-	return c.sendStanza([]byte(packet))
+	return c.sendStanza([]byte(packet), rawStanzas(packet)...)
+}
+
+// rawStanzas returns the top-level elements of a raw string one by one, as the server will count
+// them: white space (a keepalive) is no stanza, a string with two stanzas is two, and stream
+// management requests and answers are not stanzas either. A string that cannot be taken apart is
+// held as it is.
+func rawStanzas(packet string) []string {
+	var parts []string
+	d := xml.NewDecoder(strings.NewReader(packet))
+	depth := 0
+	var start int64
+	var top xml.Name
+	for {
+		off := d.InputOffset()
+		t, err := d.Token()
+		if err == io.EOF && depth == 0 {
+			return parts
+		}
+		if err != nil {
+			return []string{packet}
+		}
+		switch t := t.(type) {
+		case xml.StartElement:
+			if depth == 0 {
+				start, top = off, t.Name
+			}
+			depth++
+		case xml.EndElement:
+			depth--
+			if depth == 0 && !(top.Space == stanza.NSStreamManagement && (top.Local == "r" || top.Local == "a")) {
+				parts = append(parts, packet[start:d.InputOffset()])
+			}
+		}
+	}
 }
 
 // isStreamManagementElement tells whether a raw string is an <r/> or <a/> element of XEP-0198.
